@@ -163,3 +163,11 @@ for _p in ("C03", "C06", "C08", "C11"):
     _s = PROPS[_p]
     _s["prop_files"] = _s.get("prop_files", [_p]) + ["C06rs"]
     _s["translate"] = ",".join(x for x in [_s.get("translate"), "entry"] if x)
+
+# C07 ("rendering any Ok result with any options returns"; "parsing and extending return Ok or Err"):
+# C09_source_to_serde_struct shows the translated renderer returns a value for every tree and option
+# (Some: no stuck primitive, the recursion bottoms out with fuel = number of elements), and the entry
+# points are total around the loop - its check re-proves both ties as well
+_s = PROPS["C07"]
+_s["prop_files"] = _s.get("prop_files", ["C07"]) + ["C09rs", "C06rs"]
+_s["translate"] = ",".join(x for x in [_s.get("translate"), "render", "entry"] if x)
